@@ -14,6 +14,7 @@ from vlib import gen as G
 from vlib.universe import CS, FS, Universe
 
 LEVEL = "exploration"
+TYPECHECK_OK = True  # generated values conform to their annotations: some shards run with RUNTIME_TYPE_CHECK on (first use of every class included)
 RULE = (
     "programs = generated hierarchies (1-3 level chains and a two-base diamond, 0-6 fields per level drawn from child shapes "
     "one/optional/union/variadic tuple/fixed tuple and property kinds, defaults, init=False, compare=False, both, kw_only, "
